@@ -232,7 +232,81 @@ fn rand_flash(rng: &mut Rng) -> FlashTransactionV1 {
     FlashTransactionV1 { name: rand_ident(rng), state_updates: StateUpdates { by_node } }
 }
 
+/// >= 2 reference-bearing calls among the atoms
+fn rich_atoms(rng: &mut Rng) -> Vec<Atom> {
+    let mut a = rand_atoms(rng, 4);
+    for k in 0..2 + rng.usize_below(2) {
+        let refs: Vec<GlobalAddress> = (0..1 + rng.usize_below(3)).map(|_| rand_global_address(rng)).collect();
+        let at = rng.usize_below(a.len() + 1);
+        a.insert(at, Atom::Call(call_with_refs(rand_global_address(rng), if k % 2 == 0 { "a" } else { "b" }, &refs)));
+    }
+    a
+}
+
+fn rich_blobs(rng: &mut Rng) -> BlobsV1 {
+    BlobsV1 { blobs: (0..2 + rng.usize_below(3)).map(|i| { let n = 1 + rng.usize_below(12); let mut b = rng.bytes(n); b.push(i as u8); BlobV1(b) }).collect() }
+}
+
+/// Fixtures in which every collection of the model is populated with >= 2 members: blobs,
+/// signatures, reference-bearing instructions, children (>= 2 under the root, >= 1 under a
+/// subintent), decryptor maps over both curves.
+fn rich_fixture(rng: &mut Rng) -> Fixture {
+    let notary = KeyId::random(rng);
+    if rng.chance(1, 3) {
+        let mut intent = rand_intent_v1(rng, notary, 2);
+        intent.instructions = InstructionsV1(lower_v1(&rich_atoms(rng)));
+        intent.blobs = rich_blobs(rng);
+        intent.message = { let (a, b) = (2 + rng.usize_below(2), 2 + rng.usize_below(2)); encrypted_v1(rng, 9, a, b) };
+        let n = 2 + rng.usize_below(3);
+        let signers = distinct_keys(rng, n);
+        return Fixture::V1(build_v1(intent, &signers, notary));
+    }
+    // root -> {a, b}, a -> {c}
+    let partial = rng.chance(1, 4);
+    let mk = |rng: &mut Rng, kids: &[Hash], is_sub: bool| {
+        let atoms = rich_atoms(rng);
+        let yc: Vec<usize> = kids.iter().map(|_| 1).collect();
+        let mut core = subintent_core(rng, &atoms, kids, &yc, 1, is_sub);
+        core.blobs = rich_blobs(rng);
+        if rng.bool() {
+            core.message = { let (a, b) = (2 + rng.usize_below(2), 2 + rng.usize_below(2)); encrypted_v2(rng, 9, a, b) };
+        }
+        core
+    };
+    let c = SubintentV2 { intent_core: mk(rng, &[], true) };
+    let a = SubintentV2 { intent_core: mk(rng, &[subintent_hash(&c)], true) };
+    let b = SubintentV2 { intent_core: mk(rng, &[], true) };
+    let extra = SubintentV2 { intent_core: mk(rng, &[], true) };
+    let mut kids = vec![subintent_hash(&a), subintent_hash(&b)];
+    let mut subs = vec![a, c, b];
+    if rng.bool() {
+        kids.push(subintent_hash(&extra));
+        subs.push(extra);
+    }
+    let root_core = mk(rng, &kids, partial);
+    let sub_signers: Vec<Vec<KeyId>> = subs.iter().map(|_| { let n = 2 + rng.usize_below(2); distinct_keys(rng, n) }).collect();
+    let n = 2 + rng.usize_below(2);
+    let root_signers = distinct_keys(rng, n);
+    if partial {
+        let p = PartialTransactionV2 { root_subintent: SubintentV2 { intent_core: root_core }, non_root_subintents: NonRootSubintentsV2(subs) };
+        let (_, rh, hs) = refhash::partial_v2(&p);
+        let root_sigs = root_signers.iter().map(|k| IntentSignatureV1(k.sign_with_pk(&rh))).collect();
+        let batches = hs.iter().zip(sub_signers.iter()).map(|(h, ks)| IntentSignaturesV2 { signatures: ks.iter().map(|k| IntentSignatureV1(k.sign_with_pk(h))).collect() }).collect();
+        Fixture::Partial(SignedPartialTransactionV2 { partial_transaction: p, root_subintent_signatures: IntentSignaturesV2 { signatures: root_sigs }, non_root_subintent_signatures: NonRootSubintentSignaturesV2 { by_subintent: batches } })
+    } else {
+        let ti = TransactionIntentV2 {
+            transaction_header: TransactionHeaderV2 { notary_public_key: notary.public(), notary_is_signatory: rng.bool(), tip_basis_points: rng.below(500) as u32 },
+            root_intent_core: root_core,
+            non_root_subintents: NonRootSubintentsV2(subs),
+        };
+        Fixture::V2(build_v2(ti, &root_signers, &sub_signers, notary))
+    }
+}
+
 pub fn rand_fixture(rng: &mut Rng) -> Fixture {
+    if rng.chance(1, 3) {
+        return rich_fixture(rng);
+    }
     let notary = KeyId::random(rng);
     match rng.below(20) {
         0..=6 => {
@@ -1122,6 +1196,52 @@ fn check_mutant(shard: &mut Shard, kind: Kind, original: &[u8], original_top: &H
     }
 }
 
+/// Structure-aware mutant (an element of an SBOR array / map duplicated or swapped): rejected by
+/// prepare, or canonical (from_raw ok, re-encoding reproduces the mutant, same hashes) with a
+/// top-level hash different from the unmutated payload's.
+fn check_structural(shard: &mut Shard, kind: Kind, original: &[u8], original_top: &Hash, bytes: &[u8], class: &str, path: &str) {
+    let s = settings();
+    shard.eval();
+    shard.count("structural:cases");
+    shard.seen("structural:classes", class);
+    shard.seen(&format!("structural:paths:{}", kind.name()), path);
+    match prepare_hashes(kind, bytes, s) {
+        Err(e) => {
+            shard.count(&format!("structural:{}:rejected", kind.name()));
+            shard.seen("structural:prepare_errors", &prepare_err_class(&e));
+            shard.nontrivial(&(kind, class, path, prepare_err_class(&e)));
+        }
+        Ok(h) => {
+            shard.nontrivial(&(kind, class, path, "ok"));
+            let detail = |what: &str| json!({"check": "mutation", "class": class, "path": path, "kind": kind.name(), "raw": hex(bytes), "original": hex(original), "what": what});
+            let mut good = true;
+            match reencode(kind, bytes) {
+                Err(e) => {
+                    good = false;
+                    shard.violation(format!("noncanonical:{class}:accepted-but-not-reencodable:{}:{path}", kind.name()), detail(&e))
+                }
+                Ok(b) => {
+                    if b != bytes {
+                        good = false;
+                        shard.violation(format!("noncanonical:{class}:accepted-but-not-reencodable:{}:{path}", kind.name()), detail("prepare accepts the payload but decode → encode gives other bytes"));
+                    } else if prepare_hashes(kind, &b, s).ok().as_ref() != Some(&h) {
+                        good = false;
+                        shard.violation(format!("noncanonical:{class}:re-encoding-changes-hashes:{}:{path}", kind.name()), detail(""));
+                    }
+                }
+            }
+            if top_hash(&h) == *original_top {
+                good = false;
+                shard.violation(format!("noncanonical:{class}:different-bytes-same-identifier:{}:{path}", kind.name()), detail("top-level hash equals the unmutated payload's"));
+            }
+            if good {
+                shard.count(&format!("structural:{}:accepted_and_round_trips", kind.name()));
+                shard.seen("structural:round_tripping_paths", &format!("{}:{class}:{path}", kind.name()));
+            }
+        }
+    }
+}
+
 fn check_noncanonical(shard: &mut Shard, rng: &mut Rng, kind: Kind, raw: &[u8]) {
     let s = settings();
     let Ok(orig) = prepare_hashes(kind, raw, s) else { return };
@@ -1165,6 +1285,21 @@ fn check_noncanonical(shard: &mut Shard, rng: &mut Rng, kind: Kind, raw: &[u8]) 
         for i in idx.into_iter().take(10) {
             if let Some(b) = sborwalk::pad_size(raw, layout.sizes[i]) {
                 expect_rejected(shard, kind, "padded-size", raw, &b, s);
+            }
+        }
+        // structure-aware: duplicated / swapped elements of arrays and maps
+        let mut cidx: Vec<usize> = (0..layout.colls.len()).filter(|i| !layout.colls[*i].elems.is_empty()).collect();
+        rng.shuffle(&mut cidx);
+        for ci in cidx.into_iter().take(16) {
+            let c = &layout.colls[ci];
+            let i = rng.usize_below(c.elems.len());
+            let b = sborwalk::duplicate_element(raw, c, i);
+            check_structural(shard, kind, raw, &top, &b, if c.is_map { "duplicated-map-entry" } else { "duplicated-collection-element" }, &c.path);
+            if c.elems.len() >= 2 {
+                let i = rng.usize_below(c.elems.len() - 1);
+                if let Some(b) = sborwalk::swap_elements(raw, c, i) {
+                    check_structural(shard, kind, raw, &top, &b, "swapped-collection-elements", &c.path);
+                }
             }
         }
         // inner discriminators / value kinds: plain mutants
@@ -1305,6 +1440,34 @@ fn check_limits(shard: &mut Shard, rng: &mut Rng) {
     }
 }
 
+/// Diagnostic: what happens to a duplicated child hash (not a check)
+pub fn probe_children() -> i32 {
+    let mut rng = Rng::new(7);
+    let mut seen = std::collections::BTreeMap::new();
+    for _ in 0..300 {
+        let f = rich_fixture(&mut rng);
+        for (kind, raw, _) in payloads(&f, true) {
+            let Some(l) = sborwalk::layout(&raw) else { continue };
+            for c in &l.colls {
+                if c.elems.is_empty() || c.is_map {
+                    continue;
+                }
+                // children arrays: elements are 34-byte bodies (07 20 + 32 bytes)
+                if c.elems.iter().all(|(a, b)| b - a == 34 && raw[*a] == 0x07 && raw[*a + 1] == 0x20) {
+                    let m = sborwalk::duplicate_element(&raw, c, 0);
+                    let p = prepare_hashes(kind, &m, settings()).map(|_| "ok".to_string()).unwrap_or_else(|e| prepare_err_class(&e));
+                    let d = reencode(kind, &m).map(|b| if b == m { "same".to_string() } else { "differs".to_string() }).unwrap_or_else(|e| e);
+                    *seen.entry(format!("{} {} prepare={p} from_raw={d}", kind.name(), c.path)).or_insert(0) += 1;
+                }
+            }
+        }
+    }
+    for (k, v) in seen {
+        println!("{v:5} {k}");
+    }
+    0
+}
+
 pub fn run(args: &Args) -> i32 {
     let spec = Spec::new(
         "C32",
@@ -1318,6 +1481,9 @@ pub fn run(args: &Args) -> i32 {
     .floor("noncanonical:cases", args.tier.pick(300_000, 5_000_000))
     .floor("mutation:prepared", args.tier.pick(2_000, 40_000))
     .floor("limits:cases", args.tier.pick(2_000, 40_000))
+    .floor("structural:cases", args.tier.pick(100_000, 1_500_000))
+    .floor("structural:NotarizedV2:rejected", args.tier.pick(2_000, 30_000))
+    .floor("structural:SubintentV2:rejected", args.tier.pick(1_000, 15_000))
     .explain("Fixtures: V1 notarized (0-3 signers), V2 notarized (0-3 subintents, signatures), signed partial, system, round update, flash transactions and their ledger wrappers; every payload view (intent, signed intent, subintent, partial, ledger, user dispatch).");
     if let Some(path) = &args.replay {
         return replay(args, spec, path);
